@@ -6,6 +6,7 @@
 # a violation of the property).
 PROP="$1"
 cd "$(dirname "$0")"
+[ -x bin/wrapgen ] || (cd checker && GOFLAGS=-mod=vendor GOPROXY=off GOSUMDB=off GOTOOLCHAIN=local GOWORK=off go build -o ../bin/wrapgen ./wrapgen) || true
 [ -f evidence/$PROP.json ] || exit 0
 VERIF_REPO="${2:-/repo}" python3 tools/mutants.py --prop "$PROP" --only-prop --write --jobs 14 > evidence/mutants.$PROP.log 2>&1 || true
 # behaviour-preserving corpora for this property: 120 refactorings written by independent agents (benign/) and the
